@@ -775,3 +775,16 @@ K("tri.index_update", ["C09"], TRI, "tri_slices.rs", "index_update_uses_stored_c
   claim="index update of insert_transactional: the new vertex is filed under its STORED coordinates for every pair (stored, requested) of finite coordinate tuples",
   mutant=dict(file=TRI, old="                        index.insert_vertex(vertex_key, vertex.point().coords());", new="                        let _ = vertex;\n                        index.insert_vertex(vertex_key, &original_coords);",
               desc="the index files the vertex under the caller's original coordinates"))
+
+_SL_INS_T = dict(file=DT, fn_anchor=_SL_INS["fn_anchor"], stmts=[dict(prefix_until=r"let snapshot = ")], params="&mut self",
+                 name="verif_slice_insert_snapshot_taken", ret="bool", result="snapshot.is_some()")
+_SL_INSS_T = dict(file=DT, fn_anchor=_SL_INSS["fn_anchor"], stmts=[dict(prefix_until=r"let snapshot = ")], params="&mut self",
+                  name="verif_slice_insert_stats_snapshot_taken", ret="bool", result="snapshot.is_some()")
+for nm, har in [("insert", "insert_snapshot_taken"), ("insert_with_statistics", "insert_stats_snapshot_taken")]:
+    K(f"dt.snapshot_taken.{nm}", ["C03", "C02"], DT, "dt_slices2.rs", har, "K-slice",
+      [dict(file=DT, name=f"DelaunayTriangulation::{nm} (K-slice: function prefix up to `let snapshot = ..;`)", anchor=(_SL_INS if nm == "insert" else _SL_INSS)["fn_anchor"])],
+      slices=[_SL_INS_T, _SL_INSS_T], timeout=1200, ignore_dealloc_model=True,
+      bounded="insertion count <= 1024, EveryN n <= 16; K-slice: the whole prefix of the function up to the snapshot statement (helpers it calls are real code), the rest dropped",
+      assumed=["Tds::number_of_cells / number_of_vertices (stubs): any counts; ensure_spatial_index_seeded (stub: no-op)", "that the snapshot is restored on every Err of the closure is NOT decided"],
+      obligations=["snapshot-exists-when-poststep"],
+      claim=f"DelaunayTriangulation::{nm}: when the insertion starts, a rollback snapshot exists whenever a post-insertion step can run for it - however the decision is computed (robust to refactoring into helpers)")
